@@ -87,6 +87,9 @@ pub type LateProxy = Box<dyn FnMut(&MsgRec, &[MsgRec]) -> Option<Vec<u8>> + Send
 
 #[derive(Default)]
 struct Link {
+    /// slow sends: send operations waiting to be accepted / acceptances not yet consumed
+    want: u32,
+    tickets: u32,
     in_flight: VecDeque<usize>,
     visible: VecDeque<usize>,
     sent: usize,
@@ -116,6 +119,8 @@ pub struct Net {
     pub late: Option<LateProxy>,
     /// set by the executor when nothing else can happen: held messages are released as they are
     pub release_all: bool,
+    /// see `ExecCfg::slow_sends`
+    pub slow_sends: bool,
     /// crash `party` when it tries to send its (k+1)-th message
     pub crash_after: Option<(usize, usize)>,
     pub crash_now: Vec<bool>,
@@ -144,6 +149,7 @@ impl Net {
             hold: None,
             late: None,
             release_all: false,
+            slow_sends: false,
             crash_after: None,
             crash_now: vec![false; n],
             record_bytes: true,
@@ -198,6 +204,27 @@ impl Net {
 
     pub fn has_held(&self) -> bool {
         self.links.iter().flatten().any(|l| l.in_flight.front().map(|id| self.msgs[*id].held || self.msgs[*id].held_in).unwrap_or(false))
+    }
+
+    /// Links with a send operation that waits for the network to accept it (slow sends).
+    pub fn acceptable(&self) -> Vec<(usize, usize)> {
+        let mut v = vec![];
+        for a in 0..self.n {
+            for b in 0..self.n {
+                if self.links[a][b].want > 0 {
+                    v.push((a, b));
+                }
+            }
+        }
+        v
+    }
+
+    pub fn accept(&mut self, a: usize, b: usize) {
+        if self.links[a][b].want > 0 {
+            self.links[a][b].want -= 1;
+            self.links[a][b].tickets += 1;
+            self.wake(a);
+        }
     }
 
     pub fn deliver(&mut self, a: usize, b: usize) {
@@ -292,8 +319,25 @@ impl Channel for SimChannel {
             }
         }
         let mut data = Some(data);
+        let mut yielded = false;
+        let mut accepted = false;
         let r = poll_fn(|cx| {
             let mut net = self.net.lock().unwrap();
+            if net.slow_sends && party < net.n && party != me && !accepted {
+                // the send stays outstanding until the scheduler lets the network accept it
+                if !yielded {
+                    yielded = true;
+                    net.links[me][party].want += 1;
+                }
+                if net.links[me][party].tickets == 0 && !(net.closed[party] && !net.keep_open) {
+                    net.wakers[me].push(cx.waker().clone());
+                    return Poll::Pending;
+                }
+                if net.links[me][party].tickets > 0 {
+                    net.links[me][party].tickets -= 1;
+                }
+                accepted = true;
+            }
             if net.closed[party] && !net.keep_open {
                 let len = data.as_ref().map(|d| d.len()).unwrap_or(0);
                 net.ev(me, EvKind::SendFailed, party, phase, len, None);
